@@ -258,7 +258,7 @@ def do_unit(unit, ucfg, repo, wdir, tier, prop):
     vac_rc, vac_err, vsrc, vmp = extract(unit, ucfg, repo, wdir, vacuity=True)
     with cf.ThreadPoolExecutor(max_workers=2) as ex2:
         fut_main = ex2.submit(run_verus, unit, src, wdir, tier, None, RLIMIT)
-        fut_vac = ex2.submit(run_verus, unit + "_vac", vsrc, wdir, tier, None, RLIMIT, None, False, 2) if vac_rc == 0 else None
+        fut_vac = ex2.submit(run_verus, unit + "_vac", vsrc, wdir, tier, None, RLIMIT, None, False, 12) if vac_rc == 0 else None
         vr = fut_main.result()
         vv = fut_vac.result() if fut_vac else None
     R["verus_cmd"] = vr["cmd"]
